@@ -9,6 +9,21 @@ import porepy as pp
 from porepy.utils import array_operations as ao
 
 
+def _layout(arr, layout):
+    """C-contiguous, Fortran-ordered, or a non-contiguous strided view holding the same data."""
+    if layout == "F":
+        return np.asfortranarray(arr)
+    if layout == "view" and arr.ndim == 2:
+        big = np.zeros((2 * arr.shape[0] + 1, 2 * arr.shape[1] + 1), dtype=arr.dtype)
+        big[1::2, 1::2] = arr
+        return big[1::2, 1::2]
+    if layout == "view":
+        big = np.zeros(2 * arr.shape[0] + 1, dtype=arr.dtype)
+        big[1::2] = arr
+        return big[1::2]
+    return np.ascontiguousarray(arr)
+
+
 def _pt(p):
     return clist(p, cz)
 
@@ -94,7 +109,12 @@ class C34(Prop):
             "20% LARGE-coordinate sets (integers*2^-26 near 2^10, tol 2^-20, near-duplicates 1..18 "
             "units apart that are not bit-identical, equal-norm clusters in different directions, "
             "clusters 2^-10..2^-6 apart); members shuffled; unconstrained small-integer point sets "
-            "(chains allowed, tie only); dims 1-3; ismember_columns: SIGNED integer columns (ranges "
+            "(chains allowed, tie only); dims 1-3; the point array is float64, float32 (only sets "
+            "whose norm comparisons are decided with >= 20% of tol to spare), int64 or int32 LATTICE "
+            "points with tol = t/2^k both below (k > 0) and far above (k = 0, t up to 64) the lattice "
+            "spacing, in C order, Fortran order or as a non-contiguous strided view; ismember_columns "
+            "(int64/int32) and intersect_sets (float64/float32/int64/int32) in the same three "
+            "layouts; ismember_columns: SIGNED integer columns (ranges "
             "such as [-3,3], [-7,-2], [-1,5]), deliberate pairs of different columns that collide "
             "under positional encodings with base max+1 / max-min+1 in either digit order, repeated "
             "columns in b, sort True/False, 1-d arrays; intersect_sets: signed integer columns, "
@@ -106,7 +126,8 @@ class C34(Prop):
                "against sort_contract on every case (boolean checker sort_ind_ok, not proved "
                "equivalent to the Prop contract)",
                "scipy KDTree.query_ball_tree meets query_contract"]
-    assumptions = ["tol > 0; all points / columns of one call have the same dimension",
+    assumptions = ["tol > 0 passed as a Python float; all points / columns of one call have the same "
+                   "dimension; integer / float32 arrays hold values that are exact in their dtype",
                    "oracle demands the cluster property only when every cluster has diameter <= tol/2 "
                    "and different clusters are >= 2 tol apart (the theorems need only < tol / >= tol)"]
 
@@ -202,9 +223,12 @@ class C34(Prop):
         for _ in range(n):
             r = rng.random()
             if r < 0.7:
-                yield self._gen_uniq(rng, tier)
+                yield self._dress_uniq(rng, self._gen_uniq(rng, tier))
             elif r < 0.85:
-                yield self._gen_ismember(rng)
+                c = self._gen_ismember(rng)
+                c["dtype"] = rng.choice(["int64", "int64", "int32"])
+                c["layout"] = rng.choice(["C", "F", "view"])
+                yield c
             else:
                 nd = rng.choice([1, 2, 3])
                 lo, hi = rng.choice([(0, 2), (0, 3), (-2, 2), (-3, 3), (-5, 1)])
@@ -213,7 +237,43 @@ class C34(Prop):
                 if b and rng.random() < 0.4:       # exact copies across the two sets
                     a[rng.randrange(len(a))] = list(rng.choice(b))
                 yield {"kind": "intersect", "nd": nd, "a": a, "b": b,
-                       "tol2": rng.choice([1, 1, 3, 5])}   # tol = tol2 / 2  (never a distance)
+                       "tol2": rng.choice([1, 1, 3, 5]),   # tol = tol2 / 2  (never a distance)
+                       "dtype": rng.choice(["float64", "float64", "float32", "int64", "int32"]),
+                       "layout": rng.choice(["C", "F", "view"])}
+
+    @staticmethod
+    def _float32_robust(pts, t):
+        """No norm comparison of the code is decided within 20% of tol (float32 norms carry a
+        relative error of ~1e-7, the exact model none)."""
+        ns = sorted(sum(x * x for x in p) ** 0.5 for p in pts)
+        for i in range(len(ns)):
+            for j in range(i + 1, len(ns)):
+                d = ns[j] - ns[i]
+                if 0.8 * t <= d <= 1.2 * t:
+                    return False
+        return True
+
+    def _dress_uniq(self, rng, case):
+        """Choose the dtype / memory layout of the point array.  Integer dtypes: the array
+        holds the lattice points pts / 2^k exactly and tol = t / 2^k, i.e. tolerances below
+        (k > 0, small t) and well above (k = 0) the lattice spacing."""
+        case["dtype"], case["layout"] = "float64", rng.choice(["C", "F", "view"])
+        if case["k"] == 26:
+            return case
+        r = rng.random()
+        if r < 0.35:
+            return case
+        if r < 0.75:
+            case["dtype"] = "int64" if r < 0.6 else "int32"
+            case["layout"] = rng.choice(["C", "F"] if r < 0.6 else ["C", "view"])
+            kk = rng.choice([0, 0, 0, 1, 3])
+            case["k"] = kk
+            case["pts"] = [[x << kk if x >= 0 else -((-x) << kk) for x in p] for p in case["pts"]]
+            return case
+        if self._float32_robust(case["pts"], case["t"]):
+            case["dtype"] = "float32"
+            case["layout"] = rng.choice(["C", "F"])
+        return case
 
     def _gen_ismember(self, rng):
         """Signed integer columns; deliberate pairs of DIFFERENT columns that collide under
@@ -255,20 +315,31 @@ class C34(Prop):
         if kind == "uniq":
             sc = 2.0 ** (-case["k"])
             dim = case["dim"]
-            arr = np.array(case["pts"], dtype=float).reshape((-1, dim)).T * sc
-            arr = np.ascontiguousarray(arr)
-            u, n2o, o2n = pp.array_operations.uniquify_point_set(arr, case["t"] * sc)
-            ui = u / sc
+            dt = np.dtype(case.get("dtype", "float64"))
+            base = np.array(case["pts"], dtype=np.int64).reshape((-1, dim)).T
+            if dt.kind == "i":
+                assert np.all(base % (1 << case["k"]) == 0)
+                arr = (base // (1 << case["k"])).astype(dt)
+                assert np.all(arr.astype(np.int64) * (1 << case["k"]) == base)
+            else:
+                arr = (base.astype(np.float64) * sc).astype(dt)
+                assert np.all(arr.astype(np.float64) / sc == base), "not representable"
+            arr = _layout(arr, case.get("layout", "C"))
+            u, n2o, o2n = pp.array_operations.uniquify_point_set(arr, float(case["t"] * sc))
+            ui = np.asarray(u).astype(np.float64) / sc
             assert np.all(ui == np.round(ui))
             return {"u": [[int(x) for x in ui[:, j]] for j in range(ui.shape[1])],
                     "n2o": [int(x) for x in n2o], "o2n": [int(x) for x in o2n]}
         if kind == "ismember":
+            dt = np.dtype(case.get("dtype", "int64"))
             if case["one_d"]:
-                a = np.array([c[0] for c in case["a"]], dtype=int)
-                b = np.array([c[0] for c in case["b"]], dtype=int)
+                a = np.array([c[0] for c in case["a"]], dtype=dt)
+                b = np.array([c[0] for c in case["b"]], dtype=dt)
             else:
-                a = np.array(case["a"], dtype=int).T
-                b = np.array(case["b"], dtype=int).T
+                a = np.array(case["a"], dtype=dt).T
+                b = np.array(case["b"], dtype=dt).T
+            a = _layout(a, case.get("layout", "C"))
+            b = _layout(b, case.get("layout", "C"))
             # capture what np.argsort returns inside the call (numpy's default sort is not
             # stable: which twin of a repeated column of b is found is not specified)
             calls = []
@@ -288,8 +359,9 @@ class C34(Prop):
             return {"ismem": [bool(x) for x in ismem], "ia": [int(x) for x in ia],
                     "sort_ind": [int(x) for x in calls[-1]]}
         nd = case["nd"]
-        a = np.array(case["a"], dtype=float).reshape((-1, nd)).T
-        b = np.array(case["b"], dtype=float).reshape((-1, nd)).T
+        dt = np.dtype(case.get("dtype", "float64"))
+        a = _layout(np.array(case["a"], dtype=dt).reshape((-1, nd)).T, case.get("layout", "C"))
+        b = _layout(np.array(case["b"], dtype=dt).reshape((-1, nd)).T, case.get("layout", "C"))
         ia, ib, a_in_b, inter = ao.intersect_sets(a, b, tol=case["tol2"] / 2.0)
         return {"ia": [int(x) for x in ia], "ib": [int(x) for x in ib],
                 "a_in_b": [bool(x) for x in a_in_b],
